@@ -261,6 +261,10 @@ def gen_case(rng):
     th = D.rand_params(rng, cname)
     base = D.rand_params(rng, cname)
     other = D.rand_params(rng, cname)
+    if cname == "WeibullDistribution" and rng.random() < 0.35:   # a location below zero: the support starts at gamma, not at the origin
+        for t_ in (th, base, other):
+            if rng.random() < 0.7:
+                t_["gamma"] = -rng.uniform(0.1, 4.0)
     if cname == "LogNormalNormFitDistribution":
         expl = dict(other) if rng.random() < 0.8 else {}
     else:
@@ -338,10 +342,18 @@ def run(ctx):
         subs = []
         for nm, base, alt in (("gamma", {"a": 2.5, "loc": 1.5, "scale": 2.0}, {"a": 1.7, "loc": 0.0, "scale": 0.7}),
                               ("gumbel_r", {"loc": 1.0, "scale": 2.0}, {"loc": 0.0, "scale": 0.5}),
+                              ("norm", {"loc": 3.0, "scale": 1.5}, {"loc": -1.0, "scale": 0.7}),          # families without a shape parameter
+                              ("rayleigh", {"loc": 0.5, "scale": 2.0}, {"loc": 0.0, "scale": 3.0}),
+                              ("gengamma", {"a": 2.0, "c": 1.5, "loc": 0.2, "scale": 2.0}, {"a": 1.2, "c": 2.5, "loc": 0.0, "scale": 1.1}),
                               ("weibull_min", {"c": 1.5, "loc": 0.3, "scale": 2.0}, {"c": 2.2, "loc": 0, "scale": 3.0})):
             Cls = type("My_" + nm, (dm.ScipyDistribution,), {"scipy_dist_name": nm})
             names = list(base)
             inst = Cls(**base)
+            if list(inst.parameters) != names or [float(inst.parameters[k]) for k in names] != [float(base[k]) for k in names]:
+                ctx.violation({"cls": "ScipyDistribution", "clause": "parameters", "family": nm},
+                              "ScipyDistribution(%s)(%s).parameters = %r" % (nm, ", ".join("%s=%r" % kv for kv in base.items()), dict(inst.parameters)),
+                              {"cls": "ScipyDistribution", "family": nm, "ctor": base})
+                continue
             xs = np.array([2.0, 3.5, 6.0])
             for i, pn in enumerate(names):
                 want = getattr(sts_, nm)
